@@ -5,7 +5,7 @@
 #![allow(dead_code, unused_imports)]
 
 // (not in the lean flavour: b3sum itself needs the mmap and rayon features of the crate)
-#[cfg(feature = "full")]
+#[cfg(feature = "par")]
 include!(concat!(env!("VERIF_B3SUM_MAIN")));
 
 pub struct Parsed {
@@ -16,9 +16,9 @@ pub struct Parsed {
 }
 
 /// false: the private items have another shape in this tree (see build.rs); the in-process family is skipped
-pub const PRIVATE_API: bool = cfg!(all(b3sum_private_api, feature = "full"));
+pub const PRIVATE_API: bool = cfg!(all(b3sum_private_api, feature = "par"));
 
-#[cfg(all(b3sum_private_api, feature = "full"))]
+#[cfg(all(b3sum_private_api, feature = "par"))]
 pub fn verif_parse(line: &str) -> Result<Parsed, String> {
     match parse_check_line(line) {
         Ok(p) => Ok(Parsed { path: p.file_path, hash: *p.expected_hash.as_bytes(), file_string: p.file_string, is_escaped: p.is_escaped }),
@@ -26,18 +26,18 @@ pub fn verif_parse(line: &str) -> Result<Parsed, String> {
     }
 }
 
-#[cfg(all(b3sum_private_api, feature = "full"))]
+#[cfg(all(b3sum_private_api, feature = "par"))]
 pub fn verif_filepath_to_string(p: &std::path::Path) -> (String, bool) {
     let f = filepath_to_string(p);
     (f.filepath_string, f.is_escaped)
 }
 
-#[cfg(not(all(b3sum_private_api, feature = "full")))]
+#[cfg(not(all(b3sum_private_api, feature = "par")))]
 pub fn verif_parse(_line: &str) -> Result<Parsed, String> {
     Err("unavailable".into())
 }
 
-#[cfg(not(all(b3sum_private_api, feature = "full")))]
+#[cfg(not(all(b3sum_private_api, feature = "par")))]
 pub fn verif_filepath_to_string(_p: &std::path::Path) -> (String, bool) {
     (String::new(), false)
 }
